@@ -337,4 +337,39 @@ def state_facts(o):
         "committed_state": cs,
         "load_options": len(st.load_options),
         "has_load_path": bool(st.load_path),
+        "identity_token": st.identity_token,
     }
+
+
+# --------------------------------------------------------------------------
+# C51 part E: Core tables with and without a schema (ATTACHed database "alt")
+# --------------------------------------------------------------------------
+def schema_metadata(twin, default_schema=False):
+    """MetaData holding schema-qualified tables.  ``twin``: an unqualified table with the
+    same *name* as a qualified one lives in the same MetaData (the classic live table +
+    archive schema layout).  ``default_schema``: the qualification comes from
+    ``MetaData(schema=...)`` instead of ``Table(schema=...)``."""
+    md = sa.MetaData(schema="alt" if default_schema else None)
+    sch = None if default_schema else "alt"
+    out = {"md": md}
+    out["q_item"] = sa.Table("item", md, sa.Column("id", sa.Integer, primary_key=True),
+                             sa.Column("name", sa.String(30)), sa.Column("qty", sa.Integer), schema=sch)
+    out["q_solo"] = sa.Table("solo", md, sa.Column("id", sa.Integer, primary_key=True),
+                             sa.Column("item_id", sa.ForeignKey(out["q_item"].c.id)),
+                             sa.Column("tag", sa.String(30)), schema=sch)
+    if twin:
+        out["u_item"] = sa.Table("item", md, sa.Column("id", sa.Integer, primary_key=True),
+                                 sa.Column("name", sa.String(30)), sa.Column("qty", sa.Integer),
+                                 schema=sa.schema.BLANK_SCHEMA if default_schema else None)
+    out["u_plain"] = sa.Table("plain", md, sa.Column("id", sa.Integer, primary_key=True),
+                              sa.Column("tag", sa.String(30)),
+                              schema=sa.schema.BLANK_SCHEMA if default_schema else None)
+    return out
+
+
+def schema_populate(conn, tabs):
+    conn.execute(tabs["q_item"].insert(), [dict(id=i, name="alt-%d" % i, qty=10 * i) for i in (1, 2, 3, 4)])
+    conn.execute(tabs["q_solo"].insert(), [dict(id=i, item_id=1 + i % 4, tag="solo-%d" % i) for i in (1, 2, 3)])
+    if "u_item" in tabs:
+        conn.execute(tabs["u_item"].insert(), [dict(id=i, name="main-%d" % i, qty=i) for i in (1, 2, 5)])
+    conn.execute(tabs["u_plain"].insert(), [dict(id=i, tag="plain-%d" % i) for i in (1, 2)])
